@@ -412,4 +412,6 @@ def run(repo, res, tier):
     # a dump written over an older, longer file is a well-formed graph only if the file is truncated when opened (shared with C10)
     from . import c10
     c10.outfile_rule(repo, res)
+    from . import c09 as _c09
+    _c09.intern_eq(repo, res, identity=False)  # one cluster per within-word automaton: two automata are the same only if every part (also the accepting states) agrees (INTERN-EQ, shared with C09)
     res.floor("sinks", len(sinks(repo)), 4)
